@@ -211,3 +211,62 @@ package proxy
 //@   loop 1
 //@     invariant (len(invalidUpstreams) == 0) <==> (forall j :: 0 <= j && j < $i ==> len(uc.upstreamConfigs[j].AllowedEmailDomains) + len(uc.upstreamConfigs[j].AllowedEmailAddresses) + len(uc.upstreamConfigs[j].AllowedGroups) > 0)
 //@     invariant len(invalidUpstreams) >= 0
+
+// ---- C12: request signing -----------------------------------------------------------------------------------------
+// removeEmpty keeps exactly the non-empty values.
+//@ func removeEmpty(s []string) []string
+//@   modifies nothing
+//@   fresh result
+//@   ensures [C12] only_non_empty_values_of_s: forall j :: 0 <= j && j < len(result) ==> result[j] != "" && (exists i :: 0 <= i && i < len(s) && s[i] == result[j])
+//@   ensures [C12] every_non_empty_value_kept: forall i :: 0 <= i && i < len(s) && s[i] != "" ==> (exists j :: 0 <= j && j < len(result) && result[j] == s[i])
+//@   ensures [C12] nothing_added: len(result) <= len(s) && len(result) >= 0
+//@   loop 1
+//@     invariant len(r) >= 0 && len(r) <= $i
+//@     invariant forall j :: 0 <= j && j < len(r) ==> r[j] != "" && (exists i :: 0 <= i && i < $i && s[i] == r[j])
+//@     invariant forall i :: 0 <= i && i < $i && s[i] != "" ==> (exists j :: 0 <= j && j < len(r) && r[j] == s[i])
+
+// The documented representation: E = the entries joined by "\n" — one line per covered header that has a non-empty
+// value (nH of them), then the <URL> line, then the body when there is one. The body is put back unchanged.
+//@ func mapRequestToHashInput(req *http.Request) (string, error)
+//@   modifies req.Body
+//@   let E = arg(@Join#2, 0)
+//@   let hasBody = old(req.Body) != nil
+//@   let nH = len(E) - (hasBody ? 2 : 1)
+//@   sink [C12] header_line_is_the_comma_join_of_its_non_empty_values: Join requires ($arg1 == "," && called(@removeEmpty#1) && $arg0 == @removeEmpty#1) || $arg1 == "\n"
+//@   sink [C12] covered_header_values_are_read_from_the_request: removeEmpty requires $arg0 == req.Header[hdr]
+//@   ensures [C12] representation_is_the_newline_join: result.1 == nil && called(@Join#2) && arg(@Join#2, 1) == "\n" && result.0 == @Join#2 && nH >= 0 && nH <= len(signedHeaders)
+//@   ensures [C12] url_line_after_the_headers: E[nH] == urlLine(old(req.URL.Path), old(req.URL.RawQuery), old(req.URL.Fragment))
+//@   ensures [C12] body_is_the_last_line: hasBody ==> called(@ReadAll#1) && arg(@ReadAll#1, 0) == old(req.Body) && E[nH + 1] == @ReadAll#1.0
+//@   ensures [C12] body_put_back_intact: hasBody ==> req.Body != nil && req.Body.$content == old(req.Body.$content)
+//@   ensures [C12] no_body_stays_no_body: !hasBody ==> req.Body == nil
+//@   loop 1
+//@     invariant len(entries) >= 0 && len(entries) <= $i
+
+// R: the representation of the request as it is when Sign is called; H: the hasher newHasher() returned.
+// On success the request carries Sso-Signature = base64url(SIGN(key, HASH(R))) and kid = the published key's id;
+// nothing but these two headers (and the re-buffered body) is changed, so R is also the representation of the
+// request that goes on to the next handler.
+//@ func (signer RequestSigner) Sign(req *http.Request) error
+//@   modifies req.Body, hdrmap(req.Header)
+//@   let R = @mapRequestToHashInput#1.0
+//@   let H = @newHasher#1
+//@   dyn newHasher new
+//@   ensures [C12] signs_the_representation_of_this_request: result == nil ==> called(@mapRequestToHashInput#1) && arg(@mapRequestToHashInput#1, 0) == req && @mapRequestToHashInput#1.1 == nil && called(@Sign#1) && arg(@Sign#1, 0) == signer.signingKey && arg(@Sign#1, 2) == hmacOf(H.$hkey, R) && @Sign#1.1 == nil
+//@   ensures [C12] signature_header_is_base64url_of_the_signature: result == nil ==> hdrIs(req.Header, "Sso-Signature", b64enc(base64.URLEncoding, sigOf(signer.signingKey.tag, signer.signingKey.pay, hmacOf(H.$hkey, R))))
+//@   ensures [C12] kid_names_the_published_key: result == nil ==> hdrIs(req.Header, "Kid", signer.publicKeyID)
+//@   ensures [C12] covered_headers_untouched: forall k string :: k != "Sso-Signature" && k != "Kid" ==> (k in req.Header) == old(k in req.Header) && req.Header[k] == old(req.Header[k])
+//@   ensures [C12] unsigned_on_failure_is_reported: result != nil ==> (@mapRequestToHashInput#1.1 != nil || @Sign#1.1 != nil)
+
+// The signing middleware: the request reaches the next handler only after the configured signatures were added
+// to this very request, and nothing covered changes between the RSA signature and the hand-over.
+//@ func newSigningHandler$1(rw http.ResponseWriter, req *http.Request)
+//@   modifies everything
+//@   sink [C12] forwarded_only_when_signed: ServeHTTP requires $arg0 == rw && $arg1 == req && (config.HMACAuth != nil ==> called(@SignRequest#1) && arg(@SignRequest#1, 1) == req) && (signer != nil ==> called(@Sign#1) && arg(@Sign#1, 1) == req && @Sign#1 == nil)
+//@   sink [C12] nothing_covered_changes_after_signing: ServeHTTP requires signer != nil ==> (forall k string :: (k in req.Header) == at(@Sign#1, (k in req.Header)) && req.Header[k] == at(@Sign#1, req.Header[k])) && req.Body == at(@Sign#1, req.Body) && req.URL.Path == at(@Sign#1, req.URL.Path) && req.URL.RawQuery == at(@Sign#1, req.URL.RawQuery)
+//@   ensures [C12] handed_on_once: called(@ServeHTTP#1)
+
+// The cookie is removed before anything is signed (the chain is deleteCookie -> sign -> timeout -> reverse proxy,
+// see the wiring obligations of NewUpstreamReverseProxy).
+//@ func deleteCookieHandler$1(rw http.ResponseWriter, req *http.Request)
+//@   modifies everything
+//@   sink [C12 C03] cookie_removed_before_the_rest: ServeHTTP requires $arg0 == rw && $arg1 == req && called(@deleteCookie#1) && arg(@deleteCookie#1, 0) == req && arg(@deleteCookie#1, 1) == cookieName
